@@ -274,6 +274,52 @@ func checkC10(c *Ctx) {
 	c.checkAppendAliasing()
 	c.checkFreshTargets()
 
+	// ---- C10-ATTACH: the Go value is attached to the record only after it was filled without error
+	if f := c.mustFn("C10-ATTACH", "toGoHelper"); f != nil {
+		conv := c.fn("SexpToGoStructs")
+		shadowSet := c.field("SexpHash", "ShadowSet")
+		n := 0
+		if conv != nil && shadowSet != nil {
+			eachInstr(f, func(b *ssa.BasicBlock, i int, in ssa.Instruction) {
+				st, ok := in.(*ssa.Store)
+				if !ok {
+					return
+				}
+				fa, ok := st.Addr.(*ssa.FieldAddr)
+				if !ok || faField(fa) != shadowSet {
+					return
+				}
+				n++
+				after := false
+				for _, ci := range callsOf(f, conv) {
+					call, ok := ci.(*ssa.Call)
+					if !ok || !dominatesInstr(call, st) {
+						continue
+					}
+					if guardedBy(b, func(cond ssa.Value) (bool, bool) {
+						bo, ok := cond.(*ssa.BinOp)
+						if !ok || (bo.Op != token.NEQ && bo.Op != token.EQL) || !isNilConst(bo.Y) {
+							return false, false
+						}
+						ex, ok := bo.X.(*ssa.Extract)
+						if !ok || ex.Tuple != ssa.Value(call) {
+							return false, false
+						}
+						return true, bo.Op == token.EQL
+					}) {
+						after = true
+					}
+				}
+				c.check(after, "C10-ATTACH", "toGoHelper", "shadow attached after a successful fill", st.Pos(),
+					"the record is marked as carrying its Go value only after SexpToGoStructs returned without error",
+					"the record is marked as carrying its Go value before the conversion has succeeded: when the conversion fails (wrong kind, undeclared field) the record keeps a half-filled Go value, and the next method call on it skips the conversion and silently works on that value")
+			})
+		}
+		if n == 0 {
+			c.undecided("C10-ATTACH", "toGoHelper", "shadow attached after a successful fill", f.Pos(), "no store of the shadow flag found in toGoHelper")
+		}
+	}
+
 	// ---- C10-BAR: converters run behind the barrier
 	br := c.newBR(c.entryRoots(true), c.tableCut("C01-BAR"))
 	for _, name := range []string{"SexpToGoStructs", "ToGoFunction", "CallGoMethodFunction", "fillHashHelper"} {
